@@ -66,6 +66,13 @@ def check_accepted(rep, drv, t, schema, data, cdc, origin):
     # the library's own encoder accepts it and the re-encoding decodes to the same abstract value
     obj = r[3]
     try:
+        prob = object_problem(obj)
+    except Exception as e:  # noqa
+        prob = 'walking the accepted object raised %r' % (e,)
+    if prob:
+        rep.fail('accepted-object-malformed', 'accepted value %s: %s' % (gen.val_sexp(v)[:120], prob), replay)
+        return
+    try:
         again = codec.ENC['ber'].encode(obj)
     except Exception as e:  # noqa
         cls = codec.classify(e)
@@ -89,6 +96,59 @@ def check_accepted(rep, drv, t, schema, data, cdc, origin):
     rep.corr_checked += 1
     if md[0] == 'ok' and (not gen.val_equiv(t, md[1], v) or md[2] != r[2]):
         rep.disagree('DEC', replay, [gen.val_sexp(md[1]), md[2].hex()], [gen.val_sexp(v), r[2].hex()])
+
+
+def object_problem(obj, depth=0):
+    """what the abstract view does not show: at every level a CHOICE object holds exactly one alternative, and no constructed
+    object is inconsistent with its own constraints"""
+    from pyasn1.type import base as pbase_
+    if depth > 12 or not isinstance(obj, pbase_.ConstructedAsn1Type):
+        return None
+    if isinstance(obj, univ.Choice):
+        held = []
+        for i in range(len(obj.componentType)):
+            c = obj.getComponentByPosition(i, default=None, instantiate=False)
+            if c is not None and c is not pbase_.noValue and c.isValue:
+                held.append(obj.componentType[i].name)
+        if len(held) != 1:
+            return 'a CHOICE object holds %d alternatives: %s' % (len(held), held)
+        return object_problem(obj.getComponent(), depth + 1)
+    try:
+        if obj.isInconsistent:
+            return '%s object is inconsistent with its constraints' % type(obj).__name__
+    except error.PyAsn1Error:
+        pass
+    if isinstance(obj, (univ.SequenceOf, univ.SetOf)):
+        kids = [obj.getComponentByPosition(i, instantiate=False) for i in range(len(obj))]
+    else:
+        kids = [obj.getComponentByPosition(i, default=None, instantiate=False) for i in range(len(obj.componentType))] \
+            if obj.componentType else list(obj.values())
+    for c in kids:
+        if c is not None and c is not pbase_.noValue:
+            p = object_problem(c, depth + 1)
+            if p:
+                return p
+    return None
+
+
+def check_choice_wrappers(rep, drv):
+    """an explicitly tagged CHOICE whose wrapper - definite or indefinite - holds more than one element: refused, or a value with
+    exactly one alternative; either order of the alternatives, alone and as a record member"""
+    cases = [('(tag e c 0 (choice (r int) (r bool) (r (str 4))))',
+              ['a0800201050101ff0000', 'a0800101ff0201050000', 'a08004026162020105' + '0000', 'a0800201050201060000', 'a0060201050101ff',
+               'a080020105' + '0000', 'a00302010500' + '00']),
+             ('(seq (r int) (r (tag e c 0 (choice (r int) (r (str 4)) (r bool)))))',
+              ['3080020107a0800201050402616200000000', '300d020107a0800201050101000000', '3080020107a08004026162020105' + '00000000',
+               '3009020107a0040201050500'])]
+    for ts, inputs in cases:
+        t = sexp_types.ty_of_sexp(gen.parse_sexps(ts)[0])
+        schema = gen.build(t)
+        for hx in inputs:
+            data = bytes.fromhex(hx)
+            for cdc in ('ber', 'cer', 'der'):
+                rep.case('choice-wrapper %s %s %s' % (ts, hx, cdc), nontrivial=True)
+                rep.count('choice-wrappers')
+                check_accepted(rep, drv, t, schema, data, cdc, 'choice-wrapper')
 
 
 def structural_mutants(rng, data, limit=12):
@@ -427,6 +487,7 @@ def run(rep, tier, seed):
                 'SEQUENCE OF / SET OF, nested) with a hand-written admissibility table; non-trivial = accepted and type depth>=1')
     rep.assumptions = ['constraints are exercised on a fixed family of constrained types, not generated', 'text codecs trusted']
     check_constrained(rep)
+    check_choice_wrappers(rep, drv)
     # corpus: untagged CHOICEs nested directly in CHOICEs (two and three levels), also as record members and elements
     from harness import sexp_types
     for ts, vs in [("(choice (r (str 4)) (r (choice (r int) (r bool))))", "(ch 1 (ch 0 (i 5)))"),
